@@ -283,90 +283,85 @@ fn admitted_request() -> SessionRequest {
     SessionRequest::try_from(h).ok().unwrap()
 }
 
-// @h props=C12,C13,C15 tier=quick t=2400 sub=typestate-session covers=any
+// @h props=C12,C13,C15 tier=quick t=3000 mem=20 sub=typestate-session covers=any
 // @fn wtransport-proto/src/stream.rs StreamSession::{read_frame,read_frame_from_buffer,validate_frame} StreamBiRemoteH3::into_session; wtransport-proto/src/frame.rs Frame::read
-// @bound established session stream; every byte string of length 0..=6 whose first frame type is a 1-byte varint with length <= 3 or the WT signal (0x40 0x41 ..)
-// @oracle reference parser + role table (RFC 9114 §7.2, WT draft): DATA/HEADERS/GREASE delivered with exact payload; SETTINGS and WT signal => H3_FRAME_UNEXPECTED; invalid id => H3_ID_ERROR; unknown non-GREASE frames skipped whole and the result is that of the remaining bytes; buffered variant identical with the offset rule of C15
+// @bound established session stream; optionally one unknown non-GREASE frame (1-byte type, length 0..=2, arbitrary payload) followed by DATA / HEADERS / SETTINGS / WT signal (valid id) / GREASE with one payload byte, or any proper prefix of it
+// @oracle role table (RFC 9114 §7.2, WT draft): DATA/HEADERS/GREASE delivered with exact payload; SETTINGS and WT signal => H3_FRAME_UNEXPECTED; the unknown frame is skipped whole and changes nothing (C13); incomplete follower => need more data; buffered variant identical, offset unchanged on None/Err and advanced by the consumed bytes on Some (C15)
 // @assume model map (session request built through the real TryFrom<Headers>)
 #[kani::proof]
 #[kani::unwind(14)]
 fn m_session_typestate() {
     use crate::bytes::BufferReader;
     use crate::stream::Stream;
-    let buf: [u8; 6] = kani::any();
-    let len: usize = kani::any();
-    kani::assume(len <= 6);
-    kani::assume((buf[0] < 0x40 && buf[1] <= 3) || (buf[0] == 0x40 && buf[1] == 0x41));
     let st = Stream::accept_bi().upgrade().into_session(admitted_request());
-    let data = &buf[..len];
-    let mut s: &[u8] = data;
-    let got = st.read_frame(&mut s);
-    let consumed = len - s.len();
+    let with_unknown: bool = kani::any();
+    let t: u8 = kani::any();
+    kani::assume(t < 0x40 && t != 0 && t != 1 && t != 4 && t != 0x21);
+    let l: usize = kani::any();
+    kani::assume(l <= 2);
+    let up: [u8; 2] = kani::any();
+    let mut s = [0u8; 8];
+    let mut n = 0;
+    if with_unknown {
+        s[0] = t;
+        s[1] = l as u8;
+        let mut i = 0;
+        while i < l {
+            s[2 + i] = up[i];
+            i += 1;
+        }
+        n = 2 + l;
+    }
+    let sel: u8 = kani::any();
+    kani::assume(sel < 5);
+    let pb: u8 = kani::any();
+    let f2: [u8; 3] = match sel {
+        0 => [0x00, 0x01, pb],
+        1 => [0x01, 0x01, pb],
+        2 => [0x04, 0x01, pb],
+        3 => [0x40, 0x41, 0x04],
+        _ => [0x21, 0x01, pb],
+    };
+    let cut: usize = kani::any();
+    kani::assume(cut <= 3);
+    let mut i = 0;
+    while i < cut {
+        s[n + i] = f2[i];
+        i += 1;
+    }
+    let total = n + cut;
+    let data = &s[..total];
+    let mut rd: &[u8] = data;
+    let got = st.read_frame(&mut rd);
+    let consumed = total - rd.len();
     let mut br = BufferReader::new(data);
     let got_b = st.read_frame_from_buffer(&mut br);
-    // reference for the FIRST element only when it is a known/GREASE frame (unknown ones: result must equal the tail's)
-    let t = buf[0];
-    let known1 = t == 0 || t == 1 || t == 4 || t == 0x21;
-    if len >= 2 && known1 {
-        let l = buf[1] as usize;
-        if len - 2 < l {
-            assert!(matches!(got, Ok(None)) && matches!(got_b, Ok(None)) && br.offset() == 0, "incomplete frame");
-        } else if t == 4 {
-            assert!(matches!(got, Err(ErrorCode::FrameUnexpected)), "SETTINGS on the session stream must be H3_FRAME_UNEXPECTED");
-            assert!(matches!(got_b, Err(ErrorCode::FrameUnexpected)) && br.offset() == 0);
-            kani::cover!(true, "settings refused");
-        } else {
-            match (&got, &got_b) {
-                (Ok(Some(f)), Ok(Some(g))) => {
-                    let id = match f.kind() {
-                        FrameKind::Data => 0u8,
-                        FrameKind::Headers => 1,
-                        FrameKind::Exercise(v) => v.into_inner() as u8,
-                        _ => 0xff,
-                    };
-                    assert!(id == t, "frame kind altered");
-                    assert!(f.payload().len() == l && eq_prefix(f.payload(), &data[2..], l), "payload altered");
-                    assert!(g.payload().len() == l && consumed == 2 + l && br.offset() == 2 + l);
-                    kani::cover!(t == 0 && l == 3, "DATA with 3 bytes");
-                }
-                _ => assert!(false, "permitted frame on the session stream rejected"),
+    if cut < 3 {
+        assert!(matches!(got, Ok(None)), "incomplete frame did not ask for more data");
+        assert!(matches!(got_b, Ok(None)) && br.offset() == 0, "buffered reader advanced on incomplete input");
+        kani::cover!(with_unknown && cut == 2, "unknown frame then an incomplete frame");
+    } else if sel == 2 || sel == 3 {
+        assert!(matches!(got, Err(ErrorCode::FrameUnexpected)), "SETTINGS / WT signal on the session stream must be H3_FRAME_UNEXPECTED");
+        assert!(matches!(got_b, Err(ErrorCode::FrameUnexpected)) && br.offset() == 0, "buffered reader advanced on error");
+        kani::cover!(sel == 3, "wt signal refused");
+    } else {
+        match (&got, &got_b) {
+            (Ok(Some(f)), Ok(Some(g))) => {
+                let ok_kind = match f.kind() {
+                    FrameKind::Data => sel == 0,
+                    FrameKind::Headers => sel == 1,
+                    FrameKind::Exercise(v) => sel == 4 && v.into_inner() == 0x21,
+                    _ => false,
+                };
+                assert!(ok_kind, "frame kind altered (length/payload of the unknown frame interpreted?)");
+                assert!(f.payload().len() == 1 && f.payload()[0] == pb, "payload altered");
+                assert!(g.payload().len() == 1 && g.payload()[0] == pb);
+                assert!(consumed == total && br.offset() == total, "input not consumed whole");
+                kani::cover!(with_unknown && l == 2, "unknown frame with 2-byte payload skipped whole");
+                kani::cover!(!with_unknown && sel == 0, "plain DATA frame");
             }
+            _ => assert!(false, "permitted frame on the session stream rejected"),
         }
-    } else if len >= 3 && t == 0x40 {
-        // WT signal (1-byte session id forms only decide here; longer ones may be incomplete)
-        if buf[2] < 0x40 {
-            if buf[2] & 3 != 0 {
-                assert!(matches!(got, Err(ErrorCode::Id)), "invalid session id must be H3_ID_ERROR");
-            } else {
-                assert!(matches!(got, Err(ErrorCode::FrameUnexpected)), "WT signal on an established session stream must be H3_FRAME_UNEXPECTED");
-                kani::cover!(true, "wt signal refused");
-            }
-        }
-    } else if len >= 2 && !known1 && t < 0x40 {
-        // unknown non-GREASE frame first: skipped whole; outcome == outcome of the tail on its own
-        let l = buf[1] as usize;
-        if len - 2 >= l {
-            let mut tail: &[u8] = &data[2 + l..];
-            let exp = st.read_frame(&mut tail);
-            match (&got, &exp) {
-                (Ok(None), Ok(None)) => {}
-                (Err(a), Err(b)) => assert!(a.to_code().into_inner() == b.to_code().into_inner()),
-                (Ok(Some(f)), Ok(Some(g))) => {
-                    assert!(f.payload().len() == g.payload().len() && consumed == len - tail.len(), "frame after a skipped unknown frame mis-read");
-                    kani::cover!(true, "unknown frame skipped whole, follower delivered");
-                }
-                _ => assert!(false, "length/payload of an unknown frame were interpreted on the session stream"),
-            }
-        } else {
-            assert!(matches!(got, Ok(None)), "incomplete unknown frame must ask for more data");
-        }
-    }
-    // buffered == one-shot in every case
-    match (&got, &got_b) {
-        (Ok(None), Ok(None)) => assert!(br.offset() == 0),
-        (Err(a), Err(b)) => assert!(a.to_code().into_inner() == b.to_code().into_inner() && br.offset() == 0),
-        (Ok(Some(_)), Ok(Some(_))) => assert!(br.offset() == consumed),
-        _ => assert!(false, "one-shot and buffered session readers disagree"),
     }
     core::mem::forget(st);
 }
